@@ -84,12 +84,12 @@ def kinds(nodes):
 
 
 def weight(c):
-    """rough cost of evaluating a case in the model"""
+    """rough cost of a case in the model (measured: coqc parses ~10 k integers per second; evaluation 0.05 - 0.7 s per tree)"""
     nodes = decode_nodes(c)
     w = 0
     for (k, _), (d, fx, _, ex) in zip(kinds(nodes), nodes):
         w += {'none': 1, 'leaf': 2, 'block': 6, 'flex': 10, 'grid': 30}[k] * (1 + ex[11]) * (2 ** d)
-    return w * c[0]
+    return len(c) + w * c[0] // 6
 
 
 def features(c):
@@ -231,17 +231,22 @@ def evaluate(tag, cases, timeout=900, nshards=16):
             for b in range(0, len(member[s]), 50):
                 f.write('Definition cs%d : list (list Z) := %s.\n' % (b, coq_list([cases[i] for i in member[s][b:b + 50]])))
                 f.write('Eval vm_compute in (map run_case cs%d).\n' % b)
+        # the output goes to a file: a shard prints megabytes, and a pipe that is only read when the earlier shards have ended
+        # would stall it after 64 kB
+        outf = open(path[:-2] + '.out', 'w')
         p = subprocess.Popen(['coqc', '-noglob', '-Q', '.', 'TV', os.path.join('Run', name + '.v')], cwd=COQ,
-                             stdout=subprocess.PIPE, stderr=subprocess.STDOUT, text=True)
-        procs.append((p, member[s], path))
+                             stdout=outf, stderr=subprocess.STDOUT, text=True)
+        procs.append((p, member[s], path, outf))
     model = [None] * len(cases)
     secs = []
     try:
-        for p, idx, path in procs:
+        for p, idx, path, outf in procs:
             try:
-                out, _ = p.communicate(timeout=max(1, timeout - (time.time() - t0)))
+                p.wait(timeout=max(1, timeout - (time.time() - t0)))
             except subprocess.TimeoutExpired:
                 raise RuntimeError('model evaluation timed out after %ds (%s)' % (timeout, tag))
+            outf.close()
+            out = open(path[:-2] + '.out').read()
             secs.append(round(time.time() - t0, 1))
             if p.returncode != 0:
                 raise RuntimeError('model evaluation failed (%s): %s' % (tag, out[-2000:]))
@@ -251,10 +256,12 @@ def evaluate(tag, cases, timeout=900, nshards=16):
             for i, g in zip(idx, got):
                 model[i] = g
     finally:
-        for p, _, path in procs:
+        for p, _, path, outf in procs:
             if p.poll() is None:
                 p.kill()
-            for ext in ('.v', '.vo', '.vok', '.vos', '.glob'):
+                p.wait()
+            outf.close()
+            for ext in ('.v', '.vo', '.vok', '.vos', '.glob', '.out'):
                 try:
                     os.remove(path[:-2] + ext)
                 except FileNotFoundError:
